@@ -15,8 +15,11 @@ from . import core, lean_audit
 from .core import VERIF, Rng, impl_call, run_driver_parallel, case_key
 from .props import PROPS, TRUSTED_BASE
 
-EVID = os.path.join(VERIF, "evidence")
-REPL = os.path.join(VERIF, "replays")
+# VERIF_OUT (development drills only): write evidence/ and replays/ elsewhere so that a drill against a scratch
+# worktree (VERIF_REPO) never overwrites the committed evidence of /repo itself
+_OUT = os.environ.get("VERIF_OUT") or VERIF
+EVID = os.path.join(_OUT, "evidence")
+REPL = os.path.join(_OUT, "replays")
 KNOWN = os.path.join(VERIF, "known_findings.json")
 
 
@@ -205,7 +208,11 @@ def main(argv=None):
                 oracle = getattr(G, "ORACLES", {}).get(pid)
                 if not oracle:
                     continue
-                extra = list(G.gen(rng, int(budget[1] * args.scale), "thorough"))
+                # a group may offer a guided search seeded by the configurations on which model and code disagree
+                guided = []
+                if hasattr(G, "search"):
+                    guided = list(G.search(rng, [r["case"] for g, r in all_dis if g == gname], tier))
+                extra = guided + list(G.gen(rng, int(budget[1] * args.scale), "thorough"))
                 for c in extra:
                     ir = impl_call(G.impl, c)
                     v = oracle(c, ir)
